@@ -54,6 +54,7 @@ var HTMLFull = append(append([]string{}, HTMLBytes...), []string{
 	"entity", "ENTITY", "script", "SCRIPT", "svg", "svt", "xsl", "a", "b", "href", "HREF", "src", "style", "STYLE", "filter", "onclick", "ONCLICK", "onerror", "on",
 	"xmlns", "xlink", "xlink:href", "attributename", "by", "to", "from", "action", "datasrc", "javascript:", "JAVASCRIPT:", "java", "data:", "DATA", "vbscript:", "view-source:",
 	"&#106;", "&#x6a", "&#X6A;", "&#", "&#x", "&#0", "&#x0", "&#106", "&#00000106;", "&#x1000100;", "&", "&amp;",
+	"&#60;", "&#x3c;", "&#060", "&#61;", "&#x3D;", "&lt;", "&#62;", "&#34;", "&#39;", "&#x60;", "&#47;",
 	"iframe", "embed", "object", "meta", "link", "base", "applet", "frame", "xss", "noscript", "isindex", "comment", "listener", "handler", "vmlframe", "frameset",
 }...)
 
